@@ -36,6 +36,8 @@ def make_array(case):
     dt = np.dtype(case.get('dtype', 'float64'))
     if dt.kind == 'f':
         a = np.array([np.nan if x is None else x / float(2 ** fb) for x in k], dtype=np.float64)
+        for p in case.get('inf', []):       # +inf pixels; the model sees HUGE there
+            a[p] = np.inf
         a = a.astype(dt)
     else:
         assert fb == 0 and all(x is not None for x in k)
@@ -174,8 +176,13 @@ def recorded_order(d, a, case):
     return [int(np.ravel_multi_index(tuple(idx[i]), shape)) for i in np.argsort(vals)[::-1]], False
 
 
+HUGE = 10 ** 9
+
+
 def to_k(x, fb):
-    """implementation value -> exact integer in model units (k = x * 2**fb)"""
+    """implementation value -> exact integer in model units (k = x * 2**fb); +inf is the sentinel HUGE"""
+    if isinstance(x, (float, np.floating)) and np.isinf(x) and x > 0:
+        return HUGE
     f = Fraction(x.item() if hasattr(x, 'item') else x) * (2 ** fb)
     if f.denominator != 1:
         raise ImplError('value %r is not representable in model units' % (x,))
